@@ -10,14 +10,19 @@ NOTES = {
               'exclusive-ownership and no-data-race, confirmed natively under the race detector).'),
     'C11-D': (None, 'Out of the model: the defect needs a garbage collection that runs a finalizer; finalizers and the collector are not '
               'encoded (runtime.SetFinalizer is reported as INCONCLUSIVE).'),
-    'C05-F': (None, 'Out of the bounds: needs >= 65536 samples and goroutines started inside the library; the checks stop at 4100 samples (the path with the defect is never entered).'),
-    'C11-F': (None, 'Out of the bounds: needs >= 65536 samples and goroutines started inside the library; the checks stop at 4100 samples.'),
-    'C19-E': (None, 'Out of the bounds: the parallel path starts at 32768 samples and uses goroutines started inside the library.'),
+    'C05-F': (None, 'Outside the quick bounds (4100 samples). Reported by the thorough tier since the 65543-sample jobs were added: '
+              'bin/check C05 thorough: exit 1, C05_Big_FloatAsSigned / C05_Big_FloatAsUnsigned size-independent (stale tail positions), confirmed natively.', 'thorough'),
+    'C11-F': (None, 'Outside the quick bounds (4100 samples). Reported by the thorough tier since the 65543-sample jobs were added: '
+              'bin/check C11 thorough: exit 1, C11_BigCycle no-data-race (loop variable) and big:zero, confirmed natively under the race detector; '
+              'bin/check C10 thorough reports big:zero as well.', 'thorough'),
+    'C19-E': (None, 'Outside the quick bounds (4100 samples). Reported by the thorough tier since C19_BigStriped (65542 samples) was added: '
+              'bin/check C19 thorough: exit 1, no-data-race on the named result of ReadStriped.', 'thorough'),
     'C18-E': (None, 'Out of reach of the technique: the allocation is introduced by the compiler escape analysis in the caller (stack-backed '
               'destination slices reached through a function value); no allocating instruction exists at SSA level. Stated limit of C18.'),
 }
 
-for key, (other, note) in NOTES.items():
+for key, val in NOTES.items():
+    other, note = val[0], val[1]
     p = os.path.join('/verif/seeded', key, 'meta.json')
     if not os.path.exists(p):
         continue
@@ -25,5 +30,8 @@ for key, (other, note) in NOTES.items():
     m['note'] = note
     if other:
         m['detected_by_other_check'] = other
+    if len(val) > 2:
+        m['detected_by_tier'] = val[2]
+        m['detected_by_check'] = True
     json.dump(m, open(p, 'w'), indent=1)
     print('annotated', key)
